@@ -164,13 +164,16 @@ class ClassInfo:
                     if l.startswith('self.'):
                         self._w(l, f, v if len(flat) == 1 else None)
                     continue
-                # self.x[<non constant>] = ... / self.x.y = ...  -> unknown write to self.x
-                b = t
+                # self.x[<non constant>] = ...  -> unknown write to self.x
+                # (self.x.y = ... mutates the object held in x, it does not rebind x: ignored)
+                b, via_attr = t, False
                 while isinstance(b, (ast.Subscript, ast.Attribute)):
                     lb = loc_of(b)
                     if lb is not None and lb.startswith('self.'):
-                        self._w(lb, f, None)
+                        if not via_attr:
+                            self._w(lb, f, None)
                         break
+                    via_attr = via_attr or isinstance(b, ast.Attribute)
                     b = b.value
 
     def writes_of(self, loc):
@@ -1240,9 +1243,623 @@ def _rule1(ctx, rep):
                 r.fail(f'{q}:alternate', where(f), 'expected length is never None and no phase slot drives it: framing not understood')
 
 
+# ---------------------------------------------------------------------------
+# R-C14-2: the handshake gate
+
+
+def _dr_write(node):
+    """(object expr, value expr) when node stores some object's dataReceived"""
+    if (
+        isinstance(node, ast.Call)
+        and isinstance(node.func, ast.Name)
+        and node.func.id == 'setattr'
+        and len(node.args) == 3
+        and isinstance(node.args[1], ast.Constant)
+        and node.args[1].value == 'dataReceived'
+    ):
+        return node.args[0], node.args[2]
+    if (
+        isinstance(node, ast.Assign)
+        and len(node.targets) == 1
+        and isinstance(node.targets[0], ast.Attribute)
+        and node.targets[0].attr == 'dataReceived'
+    ):
+        return node.targets[0].value, node.value
+    return None
+
+
+def _dr_read(node, obj_name):
+    """getattr(obj, 'dataReceived') / obj.dataReceived"""
+    if (
+        isinstance(node, ast.Call)
+        and isinstance(node.func, ast.Name)
+        and node.func.id == 'getattr'
+        and len(node.args) == 2
+        and isinstance(node.args[0], ast.Name)
+        and node.args[0].id == obj_name
+        and isinstance(node.args[1], ast.Constant)
+        and node.args[1].value == 'dataReceived'
+    ):
+        return True
+    return (
+        isinstance(node, ast.Attribute)
+        and node.attr == 'dataReceived'
+        and isinstance(node.value, ast.Name)
+        and node.value.id == obj_name
+    )
+
+
+class _Install(Flow):
+    """TwistedWrapper.__init__: state = (saved original?, installed?, excused?)"""
+
+    def __init__(self, prog, f, proto, addr, procq):
+        super().__init__()
+        self.prog, self.f, self.proto, self.addr, self.procq = prog, f, proto, addr, procq
+        self.drloc = None
+        self.sites = []
+        self.bad = []
+
+    def _site(self, node, st):
+        w = _dr_write(node)
+        if w is None:
+            return None
+        obj, val = w
+        if not (isinstance(obj, ast.Name) and obj.id == self.proto):
+            self.bad.append((node, f'{norm(node)} replaces dataReceived of something that is not the wrapped protocol'))
+            return st
+        if self.prog.resolve_in(val, self.f) != self.procq:
+            self.bad.append((node, f'{norm(node)} does not install the handshake reassembly function'))
+            return st
+        self.sites.append(node)
+        if not st[0]:
+            self.bad.append((node, f'{norm(node)}: the original dataReceived has not been saved on every path to the replacement'))
+        return (st[0], True, st[2])
+
+    def on_call(self, call, st):
+        r = self._site(call, st)
+        return (st if r is None else r,)
+
+    def on_stmt(self, s, st):
+        r = self._site(s, st)
+        if r is not None:
+            return (r,)
+        if isinstance(s, ast.Assign) and len(s.targets) == 1 and _dr_read(s.value, self.proto):
+            l = loc_of(s.targets[0])
+            if l and l.startswith('self.'):
+                if st[1]:
+                    self.bad.append((s, f'{norm(s)} reads dataReceived after it was replaced: the saved original would be the handshake itself'))
+                self.drloc = l
+                return ((True, st[1], st[2]),)
+        return (st,)
+
+    def on_test(self, e, st):
+        # accepted excuses for not installing: no peer address, protocol without dataReceived
+        excuse = (isinstance(e, ast.Name) and e.id == self.addr) or (
+            isinstance(e, ast.Compare)
+            and any(isinstance(n, ast.Constant) and n.value == 'dataReceived' for n in ast.walk(e))
+            and any(isinstance(n, ast.Name) and n.id == self.proto for n in ast.walk(e))
+        ) or (
+            isinstance(e, ast.Call) and isinstance(e.func, ast.Name) and e.func.id == 'hasattr'
+            and any(isinstance(n, ast.Constant) and n.value == 'dataReceived' for n in ast.walk(e))
+        )
+        if excuse:
+            return (st,), ((st[0], st[1], True),)
+        return (st,), (st,)
+
+
+class _Restore(Flow):
+    """the phase that restores dataReceived.
+
+    state: sig / echo in '?TF' ('-' echo not compared yet), vsrc = what <response>.valid currently means,
+    dr in '?SN' (saved original known Some / None), restored, delivered, cleared, slot (next phase), taint
+    """
+
+    S = namedtuple('S', 'sig echo vsrc dr restored delivered cleared slot resp taint')
+
+    def __init__(self, prog, f, ci, bufloc, slotloc, drloc, ploc, challenge_ok):
+        super().__init__()
+        self.prog, self.f, self.ci = prog, f, ci
+        self.bufloc, self.slotloc, self.drloc, self.ploc = bufloc, slotloc, drloc, ploc
+        self.challenge_ok = challenge_ok
+        self.bad = {}
+        self.restores = []
+        self.deliveries = []
+        self.returns = 0
+        self.echo_cmp = []
+
+    def problem(self, node, msg):
+        self.bad.setdefault(_short(node), (node, msg))
+
+    def valid(self, st):
+        return st.sig == 'T' and st.echo == 'T'
+
+    def is_valid_attr(self, e, st):
+        return isinstance(e, ast.Attribute) and e.attr == 'valid' and isinstance(e.value, ast.Name) and e.value.id == st.resp
+
+    def tainted(self, e, st):
+        return any(isinstance(n, ast.Name) and n.id in st.taint for n in ast.walk(e))
+
+    def is_echo(self, e, st):
+        if not (isinstance(e, ast.Compare) and len(e.ops) == 1 and isinstance(e.ops[0], ast.Eq)):
+            return False
+        a, b = e.left, e.comparators[0]
+        for x, y in ((a, b), (b, a)):
+            locs = {loc_of(n) for n in ast.walk(y) if isinstance(n, ast.Attribute)} - {None}
+            if self.tainted(x, st) and not self.tainted(y, st) and any(self.challenge_ok(l) for l in locs):
+                return True
+        return False
+
+    def _restore(self, node, st):
+        w = _dr_write(node)
+        if w is None:
+            return None
+        obj, val = w
+        self.restores.append(node)
+        if not self.valid(st):
+            self.problem(node, f'{norm(node)} is reachable with signature={st.sig} echo={st.echo}: the application receiver is restored without a verified signature AND an equal echo')
+        if loc_of(obj) != self.ploc or loc_of(val) != self.drloc:
+            self.problem(node, f'{norm(node)} does not put the saved original receiver back on the wrapped protocol')
+        return st._replace(restored=True)
+
+    def on_call(self, call, st):
+        r = self._restore(call, st)
+        if r is not None:
+            return (r,)
+        if loc_of(call.func) == self.drloc:
+            self.deliveries.append(call)
+            if not self.valid(st):
+                self.problem(call, f'{norm(call)} delivers data to the application with signature={st.sig} echo={st.echo}')
+            if not (len(call.args) == 1 and loc_of(call.args[0]) == self.bufloc and not call.keywords):
+                self.problem(call, f'{norm(call)} does not deliver the residual buffer')
+            elif st.cleared:
+                self.problem(call, f'{norm(call)}: the residual buffer was cleared before it was delivered')
+            return (st._replace(delivered=True),)
+        t = self.ci.self_targets(call, self.f)
+        if t is not None:
+            mw = {'*'} if t[1] is None else set().union(*[self.ci.maywrite(g) for g in t[1]]) if t[1] else set()
+            if mw & {'*', self.bufloc, self.slotloc, self.drloc, self.ploc}:
+                self.problem(call, f'{norm(call)} may rewrite the handshake state: not understood')
+        return (st,)
+
+    def on_stmt(self, s, st):
+        r = self._restore(s, st)
+        if r is not None:
+            return (r,)
+        if isinstance(s, (ast.Assign, ast.AnnAssign)) and s.value is not None:
+            tg = s.targets if isinstance(s, ast.Assign) else [s.target]
+            for t in _flat_targets(tg):
+                l = loc_of(t)
+                if isinstance(t, ast.Name):
+                    v = s.value
+                    if isinstance(v, ast.Call) and call_name(v) == 'verify' and v.args and self.tainted(v.args[0], st):
+                        st = st._replace(resp=t.id, vsrc='sig', sig='?', echo='-')
+                    elif t.id == st.resp:
+                        st = st._replace(resp=None, vsrc='unknown')
+                    if self.tainted(v, st):
+                        st = st._replace(taint=st.taint | {t.id})
+                    else:
+                        st = st._replace(taint=st.taint - {t.id})
+                elif self.is_valid_attr(t, st):
+                    if self.is_echo(s.value, st):
+                        self.echo_cmp.append(s)
+                        if st.sig != 'T':
+                            self.problem(s, f'{norm(s)}: the echo comparison overrides the signature verdict on a path where the signature is {st.sig}')
+                        st = st._replace(vsrc='echo', echo='?')
+                    elif isinstance(s.value, ast.Constant) and not s.value.value:
+                        st = st._replace(vsrc='false')
+                    else:
+                        st = st._replace(vsrc='unknown')
+                elif l == self.slotloc:
+                    v = s.value
+                    st = st._replace(slot=v.attr if isinstance(v, ast.Attribute) and loc_of(v) else '?')
+                elif l == self.bufloc:
+                    if isinstance(s.value, ast.Constant) and s.value.value == b'':
+                        if not st.delivered:
+                            self.problem(s, f'{norm(s)}: the residual buffer is cleared on a path where it was not delivered')
+                        st = st._replace(cleared=True)
+                    else:
+                        self.problem(s, f'{norm(s)}: the buffer is rewritten by the restoring phase')
+                elif l in (self.drloc, self.ploc):
+                    self.problem(s, f'{norm(s)} rebinds the saved receiver / protocol')
+        elif isinstance(s, ast.AugAssign):
+            l = loc_of(s.target)
+            if l in (self.bufloc, self.drloc, self.ploc, self.slotloc):
+                self.problem(s, f'{norm(s)}: not understood')
+        return (st,)
+
+    def on_test(self, e, st):
+        if self.is_valid_attr(e, st):
+            if st.vsrc == 'sig':
+                if st.sig == '?':
+                    return (st._replace(sig='T'),), (st._replace(sig='F'),)
+                return ((st,), ()) if st.sig == 'T' else ((), (st,))
+            if st.vsrc == 'echo':
+                if st.echo == '?':
+                    return (st._replace(echo='T'),), (st._replace(echo='F'),)
+                return ((st,), ()) if st.echo == 'T' else ((), (st,))
+            if st.vsrc == 'false':
+                return (), (st,)
+            return (st,), (st,)
+        if isinstance(e, ast.Compare) and len(e.ops) == 1 and loc_of(e.left) == self.drloc:
+            c = e.comparators[0]
+            if isinstance(c, ast.Constant) and c.value is None and isinstance(e.ops[0], (ast.Is, ast.IsNot)):
+                some, none = (st._replace(dr='S'),) if st.dr in '?S' else (), (st._replace(dr='N'),) if st.dr in '?N' else ()
+                return (none, some) if isinstance(e.ops[0], ast.Is) else (some, none)
+        return (st,), (st,)
+
+    def on_return(self, node, st):
+        self.returns += 1
+        v = node.value
+        if v is None or (isinstance(v, ast.Constant)):
+            may = bool(v is not None and v.value)
+        elif self.is_valid_attr(v, st):
+            may = {'sig': st.sig != 'F', 'echo': st.echo != 'F', 'false': False}.get(st.vsrc, True)
+        else:
+            may = True
+        if may and not self.valid(st):
+            self.problem(node, f'{norm(node)} can report success with signature={st.sig} echo={st.echo}: a failed handshake would not close the connection')
+        if self.valid(st):
+            if not may:
+                self.problem(node, f'{norm(node)} reports failure after a verified signature and an equal echo')
+            if st.dr != 'N' and not (st.restored and st.delivered and st.cleared):
+                self.problem(
+                    node,
+                    f'a successful handshake can end with restored={st.restored} delivered={st.delivered} cleared={st.cleared}: '
+                    'bytes that arrived with the last packet are lost, or stay in the handshake buffer and kill the connection',
+                )
+        self.final_slots = getattr(self, 'final_slots', set()) | {st.slot}
+        return (st,)
+
+
+class _Ctor(Flow):
+    """protocol constructor: state = (tls in '?TF', wrapped)"""
+
+    def __init__(self, prog, f):
+        super().__init__()
+        self.prog, self.f = prog, f
+        self.sites = []
+
+    def on_test(self, e, st):
+        if isinstance(e, ast.Call) and self.prog.resolve_in(e.func, self.f) == 'dawgie.security.use_tls':
+            t = ((('T', st[1]),) if st[0] in '?T' else ())
+            f = ((('F', st[1]),) if st[0] in '?F' else ())
+            return t, f
+        return (st,), (st,)
+
+    def on_call(self, call, st):
+        if self.prog.resolve_in(call.func, self.f) == WRAPPER:
+            self.sites.append((call, st))
+            return ((st[0], True),)
+        return (st,)
+
+
+def _always_false(prog, ci, g):
+    class R(Flow):
+        def __init__(self):
+            super().__init__()
+            self.ok = True
+
+        def on_return(self, node, st):
+            if not (isinstance(node.value, ast.Constant) and node.value.value is False):
+                self.ok = False
+            return (st,)
+
+    fl = R()
+    out = fl.run(g.node, 0)
+    return fl.ok and not out.normal and bool(out.ret) and not ci.maywrite(g)
+
+
+def _rule2(ctx, rep):
+    prog = ctx.prog
+    cls = prog.cls(WRAPPER)
+    proc = prog.func(WRAPPER + '.process')
+    init = prog.method(WRAPPER, '__init__')
+    if init is None:
+        raise AnalysisError('TwistedWrapper.__init__ not found')
+    ci, sh, lf = analyse_loop(prog, proc)
+    rep.analysed(proc, init)
+    with rep.rule(
+        'R-C14-2',
+        'handshake gate: the application receiver is replaced at construction and comes back only after a verified signature and an equal echo',
+        floor=10,
+        breaks='an application message is processed before / without a verified handshake, bytes that arrive with the last '
+        'handshake packet are lost, or a failed handshake leaves the connection open',
+    ) as r:
+        ps = [p for p in init.params() if p != 'self']
+        if len(ps) < 2:
+            raise AnalysisError('TwistedWrapper.__init__ no longer takes (protocol, address)')
+        proto, addr = ps[0], ps[1]
+        # (a) install
+        r.instance()
+        ins = _Install(prog, init, proto, addr, proc.qname)
+        out = ins.run(init.node, (False, False, False))
+        missing = [st for st in out.normal | out.ret if not st[1] and not st[2]]
+        key = f'{init.qname}:install'
+        if not ins.sites:
+            r.fail(key, where(init), 'the constructor never replaces dataReceived of the wrapped protocol by the handshake')
+        elif ins.bad:
+            for node, msg in ins.bad:
+                r.fail(f'{key}:{_short(node)}', where(init, node), msg)
+        else:
+            r.check(
+                not missing,
+                key,
+                where(init, ins.sites[0]),
+                f'{norm(ins.sites[0])} on every path except (no address | protocol without dataReceived); original saved first in {ins.drloc}',
+                'the constructor can return without having replaced dataReceived although an address was given and the protocol has a dataReceived',
+            )
+        drloc = ins.drloc
+        ploc = None
+        for l, ws in ci.writes.items():
+            if len(ws) == 1 and ws[0][0] is init and isinstance(ws[0][1], ast.Name) and ws[0][1].id == proto:
+                ploc = l
+        # (b) who writes dataReceived / calls the saved original, anywhere
+        restorers = restoring_funcs(prog, ci)
+        for g, node in attr_stores(prog).get('dataReceived', []):
+            r.instance()
+            okw = g is init or g in restorers
+            r.check(
+                okw,
+                f'{g.qname}:writes-dataReceived',
+                where(g, node),
+                'constructor (install) or restoring phase',
+                f'{g.qname} rebinds dataReceived outside the handshake wrapper: the gate can be bypassed',
+                nontrivial=False,
+            )
+        if drloc:
+            callers = {g.qname for g in ci.methods for c in g.calls() if loc_of(c.func) == drloc}
+            readers = {
+                g.qname
+                for g in ci.methods
+                for n in g.own_nodes()
+                if isinstance(n, ast.Attribute) and isinstance(n.ctx, ast.Load) and loc_of(n) == drloc
+            }
+            r.instance()
+            r.check(
+                (callers | readers) <= {g.qname for g in restorers},
+                f'{WRAPPER}:saved-receiver-users',
+                where(init),
+                f'{drloc} is read only by {sorted(readers)}',
+                f'the saved application receiver {drloc} is used outside the restoring phase: {sorted((callers | readers) - {g.qname for g in restorers})}',
+            )
+        # (c) the restoring phase(s)
+        if not restorers:
+            r.fail(f'{WRAPPER}:restore', where(proc), 'no phase restores the application receiver: nothing is ever delivered')
+        if not (drloc and ploc and sh.bufloc and sh.slotloc):
+            r.fail(f'{WRAPPER}:shape', where(init), f'wrapper state not understood (saved receiver {drloc}, protocol {ploc}, buffer {sh.bufloc}, phase slot {sh.slotloc})')
+            restorers = []
+
+        def challenge_ok(loc):
+            """loc is written by another method which also transmits it (the challenge the peer must echo)"""
+            for g, _v in ci.writes_of(loc):
+                if g in restorers or g is init:
+                    continue
+                names = {loc}
+                for n in g.own_nodes():
+                    if isinstance(n, ast.Assign) and any(loc_of(x) in names for x in ast.walk(n.value) if isinstance(x, (ast.Attribute, ast.Name))):
+                        names |= {t.id for t in n.targets if isinstance(t, ast.Name)}
+                for c in g.calls():
+                    if call_name(c) in ('write', 'sendall', 'send') and any(
+                        loc_of(x) in names for a in c.args for x in ast.walk(a) if isinstance(x, (ast.Attribute, ast.Name))
+                    ):
+                        return True
+            return False
+
+        for g in restorers:
+            r.instance()
+            rep.analysed(g)
+            dp = data_param(g)
+            fl = _Restore(prog, g, ci, sh.bufloc, sh.slotloc, drloc, ploc, challenge_ok)
+            st0 = _Restore.S('?', '-', 'none', '?', False, False, False, None, None, frozenset({dp}))
+            out = fl.run(g.node, st0)
+            for st in out.normal:
+                fl.on_return(ast.Return(value=None), st)
+            r.extra.setdefault('restore_flow', {})[g.qname] = dict(steps=fl.visited, restores=len(fl.restores), deliveries=len(fl.deliveries), returns=fl.returns)
+            key = f'{g.qname}:restore'
+            if not fl.echo_cmp:
+                fl.problem(g.node, 'no comparison of the decrypted reply with the transmitted challenge feeds the verdict')
+            if not fl.deliveries:
+                fl.problem(g.node, 'the residual buffer is never delivered to the restored receiver')
+            if fl.bad:
+                for text, (node, msg) in fl.bad.items():
+                    r.fail(key + (f':{text}' if text else ''), where(g, node), msg)
+            else:
+                r.ok(key, f'{len(fl.restores)} restoration(s), {len(fl.deliveries)} delivery: only with signature=T and echo=T; success implies restored, delivered, then cleared', where(g, fl.restores[0]))
+            # (e) afterwards the always-false phase
+            r.instance()
+            slots = getattr(fl, 'final_slots', set())
+            finals = [prog.method(WRAPPER, sname) if sname and sname != '?' else None for sname in slots]
+            r.check(
+                bool(finals) and all(m is not None and _always_false(prog, ci, m) for m in finals),
+                f'{g.qname}:final-phase',
+                where(g),
+                f'every exit leaves the phase {sorted(map(str, slots))}, which returns False on all paths and writes nothing',
+                f'after the restoring phase the next phase is {sorted(map(str, slots))}: not on every exit a phase that always fails (the handshake could be replayed / continued)',
+            )
+        # (d) failure closes the connection and leaves the loop
+        r.instance()
+        if lf is None:
+            r.fail(f'{proc.qname}:gate', where(proc), 'reassembly function not understood (see R-C14-1)')
+        else:
+            gate = [(k, v) for k, v in lf.problems.items() if k[0].startswith('gate-')]
+            if not lf.counts.get('phase calls'):
+                r.fail(f'{proc.qname}:gate', where(proc), 'no call of the current phase with the chunk was found')
+            for (c, text), (node, msg) in gate:
+                r.fail(f'{proc.qname}:{c}' + (f':{text}' if text else ''), where(proc, node), msg)
+            if not gate and lf.counts.get('phase calls'):
+                r.ok(f'{proc.qname}:gate', 'a falsy phase result reaches loseConnection() on every path and no phase runs afterwards in the same call', where(proc))
+        # (f) every protocol constructor installs the wrapper exactly when TLS is off
+        for c in sorted(prog.classes.values(), key=lambda c: c.qname):
+            if 'dataReceived' not in c.methods or c is cls:
+                continue
+            r.instance()
+            ctor = prog.method(c.qname, '__init__')
+            key = f'{c.qname}:wrapped-iff-not-tls'
+            if ctor is None:
+                r.fail(key, mwhere(c.module, c.node), 'protocol class without a constructor of its own: the handshake wrapper is never installed')
+                continue
+            rep.analysed(ctor)
+            cf = _Ctor(prog, ctor)
+            out = cf.run(ctor.node, ('?', False))
+            msgs = []
+            for call, st in cf.sites:
+                if st[0] != 'F':
+                    msgs.append(f'{norm(call)} is reachable with use_tls() {"true" if st[0] == "T" else "untested"}: a TLS peer would have its first messages eaten by the handshake')
+                if not (len(call.args) == 2 and isinstance(call.args[0], ast.Name) and call.args[0].id == 'self' and isinstance(call.args[1], ast.Name) and call.args[1].id in ctor.params()):
+                    msgs.append(f'{norm(call)} is not TwistedWrapper(self, <peer address parameter>)')
+                if st[1]:
+                    msgs.append(f'{norm(call)} wraps the protocol twice')
+            for st in out.normal | out.ret:
+                if st[0] != 'T' and not st[1]:
+                    msgs.append('the constructor can finish without the handshake wrapper although use_tls() is false: messages are accepted from an unverified peer')
+            r.check(not msgs, key, where(ctor, cf.sites[0][0] if cf.sites else None), 'TwistedWrapper(self, address) on exactly the paths where use_tls() is false', '; '.join(sorted(set(msgs))))
+
+
+# ---------------------------------------------------------------------------
+# R-C14-3 / R-C14-4
+
+
+def _module_funcs(prog, mname):
+    m = prog.module(mname)
+    return [f for f in prog.funcs.values() if f.module is m]
+
+
+def _rule3(ctx, rep):
+    prog = ctx.prog
+    with rep.rule(
+        'R-C14-3',
+        'framing agreement: every struct.pack/unpack of the farm, database, log and handshake channels uses big-endian unsigned 4-byte fields',
+        floor=20,
+        breaks='sender and receiver disagree on the width or byte order of the length prefix: the receiver cuts the stream at the wrong places '
+        '(the log channel sender is logging.handlers.SocketHandler, which is fixed to ">L")',
+    ) as r:
+        for mn in ANCHOR_MODULES:
+            for f in sorted(_module_funcs(prog, mn), key=lambda f: f.qname):
+                for c in sorted(f.calls(), key=lambda c: (c.lineno, c.col_offset)):
+                    q = prog.resolve_in(c.func, f) or ''
+                    if not (q.startswith('external:struct.') and q.rsplit('.', 1)[1] in ('pack', 'unpack', 'unpack_from', 'pack_into', 'calcsize', 'iter_unpack', 'Struct')):
+                        continue
+                    r.instance()
+                    rep.analysed(f)
+                    fmt = c.args[0] if c.args else None
+                    key = f'{f.qname}:{norm(c)[:70]}'
+                    if not (isinstance(fmt, ast.Constant) and isinstance(fmt.value, str)):
+                        r.fail(key, where(f, c), f'{norm(c)[:70]}: format is not a literal, framing cannot be compared')
+                        continue
+                    r.check(
+                        bool(_FMT_OK.match(fmt.value)),
+                        key,
+                        where(f, c),
+                        f'{fmt.value!r}: big-endian, {_struct.calcsize(fmt.value) if _FMT_OK.match(fmt.value) else "?"} bytes',
+                        f'{norm(c)[:70]} uses format {fmt.value!r}, not big-endian unsigned 4-byte fields like every other end of the channels',
+                        nontrivial=False,
+                    )
+
+
+def _recv_ok(f, call, parent):
+    """accepted idiom: while len(B) < T: ... B += s.recv(T - len(B))  (directly or through one local)"""
+    if len(call.args) == 2 and norm(call.args[1]).endswith('MSG_WAITALL'):
+        return True, 'MSG_WAITALL'
+    if len(call.args) != 1 or call.keywords:
+        return False, 'unexpected arguments'
+    a = call.args[0]
+    if not (
+        isinstance(a, ast.BinOp)
+        and isinstance(a.op, ast.Sub)
+        and isinstance(a.right, ast.Call)
+        and isinstance(a.right.func, ast.Name)
+        and a.right.func.id == 'len'
+        and len(a.right.args) == 1
+    ):
+        return False, f'asks for {norm(a)} bytes, not for (total - len(accumulated))'
+    total, acc = norm(a.left), norm(a.right.args[0])
+    n, loop = call, None
+    while id(n) in parent:
+        n = parent[id(n)]
+        if isinstance(n, ast.While):
+            t = n.test
+            if isinstance(t, ast.Compare) and len(t.ops) == 1:
+                l, rr, op = t.left, t.comparators[0], t.ops[0]
+                if (isinstance(op, ast.Lt) and norm(l) == f'len({acc})' and norm(rr) == total) or (
+                    isinstance(op, ast.Gt) and norm(rr) == f'len({acc})' and norm(l) == total
+                ):
+                    loop = n
+                    break
+    if loop is None:
+        return False, f'is not inside a loop  while len({acc}) < {total}'
+    # the result must be appended to the accumulator inside that loop
+    names = set()
+    for s in ast.walk(loop):
+        if isinstance(s, ast.Assign) and s.value is call:
+            names |= {t.id for t in s.targets if isinstance(t, ast.Name)}
+    for s in ast.walk(loop):
+        if isinstance(s, ast.AugAssign) and isinstance(s.op, ast.Add) and norm(s.target) == acc:
+            if s.value is call or (isinstance(s.value, ast.Name) and s.value.id in names):
+                return True, f'while len({acc}) < {total}'
+    return False, f'its result is not appended to {acc} inside the loop'
+
+
+def _rule4(ctx, rep):
+    prog = ctx.prog
+    with rep.rule(
+        'R-C14-4',
+        'blocking receivers: every socket recv() accumulates until the announced number of bytes is there',
+        floor=5,
+        breaks='recv(n) may return fewer than n bytes: a header or a message cut by the network is taken for the whole '
+        '(struct.error, or a truncated challenge is echoed and the handshake fails)',
+    ) as r:
+        for mn in ANCHOR_MODULES:
+            for f in sorted(_module_funcs(prog, mn), key=lambda f: f.qname):
+                parent = None
+                for c in sorted(f.calls(), key=lambda c: (c.lineno, c.col_offset)):
+                    if not (isinstance(c.func, ast.Attribute) and c.func.attr == 'recv'):
+                        continue
+                    if parent is None:
+                        parent = {id(ch): p for p in ast.walk(f.node) for ch in ast.iter_child_nodes(p)}
+                    r.instance()
+                    rep.analysed(f)
+                    ok, why = _recv_ok(f, c, parent)
+                    r.check(
+                        ok,
+                        f'{f.qname}:{norm(c)}',
+                        where(f, c),
+                        why,
+                        f'{norm(c)} {why}: a short read is taken for the complete field',
+                    )
+
+
 def check(ctx):
-    rep = Report(PID, ctx.tier, ctx.prog, 'wip')
+    rep = Report(
+        PID,
+        ctx.tier,
+        ctx.prog,
+        'Decides from the source of farm.py, shelve/comms.py, logger/__init__.py, security.py and message.py: '
+        '(1) each of the four reassembly functions is executed symbolically for one loop iteration from every state '
+        '(expected length None / n, buffer arbitrary): the received data only extends the buffer, every slice is dominated by a '
+        'successful needed <= len(buffer) test on the same contents, exactly the needed bytes leave the front once, header and body '
+        'states alternate, and the function returns only with needed > len(buffer) established for the state it leaves; the '
+        'handshake phases are walked as (phase, chunk size) configurations; '
+        '(2) the handshake wrapper replaces dataReceived at construction, only the last phase restores it, only with signature '
+        'and echo verified, hands the residual buffer over before clearing it, a failed phase closes and leaves the loop, and every '
+        'protocol constructor installs the wrapper exactly when use_tls() is false; '
+        '(3) all length prefixes are big-endian 4-byte; (4) blocking receivers loop until the announced size. '
+        'Not decided: PGP verification itself, what Twisted does after loseConnection, exceptions raised by message handlers.',
+        assumptions=[
+            'private (name-mangled) attributes are written only inside their class (checked program-wide for the buffer state)',
+            'a call on another object does not rewrite the private stream state of this one',
+            'after transport.loseConnection() Twisted delivers no further data',
+        ],
+    )
+    rep.not_decided = [
+        'PGP signature verification and decryption themselves',
+        'behaviour of Twisted after loseConnection()',
+        'exceptions escaping the message handlers in the middle of an iteration',
+        'order of restoration and residual delivery inside the last phase (both orders deliver the same bytes)',
+    ]
     _rule1(ctx, rep)
+    _rule2(ctx, rep)
+    _rule3(ctx, rep)
+    _rule4(ctx, rep)
     return rep
 
 
@@ -1273,4 +1890,30 @@ VARIANTS = [
       "chunk = self.__buf['data'][:length]\n                log.debug('unit of %d bytes', len(chunk))\n                request = pickle.loads(chunk)", None),
     V('handshake: phase result through a local', 'N', _S, 'TwistedWrapper.process', 'if not self.__phase(data):', 'ok = self.__phase(data)\n            if not ok:', None),
     V('handshake: return instead of the length trick', 'N', _S, 'TwistedWrapper.process', 'self.__len = len(self.__buf) + 1  # break out of the while loop', 'return', None),
+    # ---- R-C14-2
+    V('gate: restore outside the valid test', 'B', _S, 'TwistedWrapper._p5', 'if response.valid and self.__dr is not None:', 'if self.__dr is not None:', 'R-C14-2'),
+    V('gate: residual cleared before delivery', 'B', _S, 'TwistedWrapper._p5', "self.__dr(self.__buf)\n            self.__buf = b''", "self.__buf = b''\n            self.__dr(self.__buf)", 'R-C14-2'),
+    V('gate: residual never cleared', 'B', _S, 'TwistedWrapper._p5', "self.__buf = b''", 'pass', 'R-C14-2'),
+    V('gate: residual not delivered', 'B', _S, 'TwistedWrapper._p5', 'self.__dr(self.__buf)', "self.__dr(b'')", 'R-C14-2'),
+    V('gate: echo not compared', 'B', _S, 'TwistedWrapper._p5', 'response.valid = reply.strip() == self.__msg.strip()', 'response.valid = bool(reply.strip())', 'R-C14-2'),
+    V('gate: p5 always reports success', 'B', _S, 'TwistedWrapper._p5', 'return response.valid', 'return True', 'R-C14-2'),
+    V('gate: after p5 the handshake restarts', 'B', _S, 'TwistedWrapper._p5', 'self.__phase = self._p6', 'self.__phase = self._p1', 'R-C14-2'),
+    V('gate: p6 accepts', 'B', _S, 'TwistedWrapper._p6', 'return False', 'return True', 'R-C14-2'),
+    V('gate: failed phase does not close', 'B', _S, 'TwistedWrapper.process', 'self.__p.transport.loseConnection()', 'pass', 'R-C14-2'),
+    V('gate: loop continues after a failed phase', 'B', _S, 'TwistedWrapper.process', 'self.__len = len(self.__buf) + 1  # break out of the while loop', 'pass', 'R-C14-2'),
+    V('gate: phase result ignored', 'B', _S, 'TwistedWrapper.process', 'if not self.__phase(data):', 'self.__phase(data)\n            if False:', 'R-C14-2'),
+    V('gate: original saved after the replacement', 'B', _S, 'TwistedWrapper.__init__',
+      "self.__dr = getattr(protocol, 'dataReceived')\n            setattr(protocol, 'dataReceived', self.process)",
+      "setattr(protocol, 'dataReceived', self.process)\n            self.__dr = getattr(protocol, 'dataReceived')", 'R-C14-2'),
+    V('gate: install under an extra condition', 'B', _S, 'TwistedWrapper.__init__', "if address and 0 < dir(protocol).count('dataReceived'):", "if address and 0 < dir(protocol).count('dataReceived') and _certs:", 'R-C14-2'),
+    V('gate: farm installs the handshake when TLS is used', 'B', _F, 'Hand.__init__', 'if not dawgie.security.use_tls():', 'if dawgie.security.use_tls():', 'R-C14-2'),
+    V('gate: db worker without the wrapper', 'B', _C, 'Worker.__init__', 'self.__handshake = dawgie.security.TwistedWrapper(self, address)', 'pass', 'R-C14-2'),
+    V('gate: log sink wrapped unconditionally', 'B', _L, 'LogSink.__init__', 'if not dawgie.security.use_tls():', 'if True:', 'R-C14-2'),
+    V('gate: farm rebinds dataReceived itself', 'B', _F, 'Hand._reg', '_workers.append(self)', '_workers.append(self)\n            self.dataReceived = self._process', 'R-C14-2'),
+    V('gate: restore by attribute assignment', 'N', _S, 'TwistedWrapper._p5', "setattr(self.__p, 'dataReceived', self.__dr)", 'self.__p.dataReceived = self.__dr', None),
+    V('gate: deliver, then restore, then clear', 'N', _S, 'TwistedWrapper._p5', "setattr(self.__p, 'dataReceived', self.__dr)\n            self.__dr(self.__buf)",
+      "self.__dr(self.__buf)\n            setattr(self.__p, 'dataReceived', self.__dr)", None),
+    V('gate: hasattr instead of dir().count', 'N', _S, 'TwistedWrapper.__init__', "0 < dir(protocol).count('dataReceived')", "hasattr(protocol, 'dataReceived')", None),
+    V('gate: log sink if/else the other way round', 'N', _L, 'LogSink.__init__', 'if not dawgie.security.use_tls():', 'if dawgie.security.use_tls():\n            pass\n        else:', None),
+    V('gate: nested valid tests merged', 'N', _S, 'TwistedWrapper._p5', 'if response.valid:\n            log.debug', 'if response.valid and True:\n            log.debug', None),
 ]
